@@ -70,8 +70,8 @@ def run(ctx):
     ctx.model_check("MC_Sequencer", "MC_Sequencer_quick.cfg" if q else "MC_Sequencer.cfg", timeout=2400)
     recs = []
     if q:
-        recs += gen(ctx, 1200, ctx.seed)
-        recs += gen(ctx, 150, ctx.seed + 1000, big=True)
+        recs += gen(ctx, 900, ctx.seed)
+        recs += gen(ctx, 100, ctx.seed + 1000, big=True)
     else:
         for i in range(5):
             recs += gen(ctx, 6000, ctx.seed + i)
